@@ -79,7 +79,7 @@ ReadOffsetTree(d, k) ==
           ELSE IF r.cnt = 1 THEN [d EXCEPT !.pos = r.pos, !.offs = TableSingle(d.offs, r.single, Pm2Leaf)]
           ELSE [d EXCEPT !.pos = r.pos, !.offs = TableBuild(d.offs, OffsetTreeLen, r.lens, k, Pm2Leaf)]
 
-\* read_bit whose failure is not looked at: [v (-1 = failure, like C), pos]
+\* read_bit whose failure is not looked at: [v, pos]; v = 2 stands for C's -1 (only "== 1" is ever tested)
 BitOrFail(inp, pos) == LET r == RdBits(inp, pos, 1) IN [v |-> IF r.ok THEN r.v ELSE 2, pos |-> r.pos]
 
 RebuildTree(d) ==
